@@ -18,7 +18,7 @@ RULE = ("Generated lifecycles (op programs): construct a state of one of the thr
         "advances, the mixed state's phase-network auxiliary bias is unchanged (exactly 0 from sizes) after every optimizer step "
         "and the corresponding gradient slices are exactly 0. Non-trivial = a module-constructed complex/density state followed by "
         "an in-place mutation, or a density state trained >= 2 steps with a non-SGD optimizer.")
-RULE_EXT = ('Extended as built: poison_reinit (NaN written then reinitialise), numpy int64/int32 sizes, n up to 9, gpu argument default / True on a CPU-only host, divergence-guarded training (excluded and counted).')
+RULE_EXT = ('Extended as built: poison_reinit (NaN written then reinitialise), numpy int64/int32 sizes, n up to 9, gpu argument default / True on a CPU-only host, divergence-guarded training (excluded and counted). Rounds 5-6: user module created with zero_weights=True; the initialize_parameters(zero_weights=...) method of the networks called directly; num_aux = 0 given explicitly.')
 RULE = RULE + " " + RULE_EXT
 ASSUMPTIONS = ["CPU only (gpu=False)", "user modules are BinaryRBM / PurificationRBM instances as documented"]
 
@@ -33,7 +33,7 @@ def lifecycles(draw, tier):
     c = {"type": t, "n": n, "how": how, "seed": draw(st.integers(0, 2 ** 31 - 1))}
     if how == "sizes":
         c["nh"] = draw(st.one_of(st.none(), st.integers(1, 5)))
-        c["na"] = draw(st.one_of(st.none(), st.integers(1, 4))) if t == "density" else None
+        c["na"] = draw(st.one_of(st.none(), st.integers(1, 4), st.integers(0, 4))) if t == "density" else None    # 0 = no purification units (a pure state), an explicit size
         c["positional"] = draw(st.booleans())
         c["size_form"] = draw(st.sampled_from(["int", "int", "np.int64", "np.int32"]))    # e.g. sizes computed with numpy
         c["gpu_arg"] = draw(st.sampled_from(["False", "False", "default", "True"]))        # no CUDA here: documented fallback to the CPU
@@ -62,12 +62,12 @@ def lifecycles(draw, tier):
 
 
 def ptrs(rbm):
-    return {p.data_ptr() for p in rbm.parameters()}
+    return {p.data_ptr() for p in rbm.parameters() if p.numel() > 0}
 
 
 def storage_disjoint(a, b):
-    sa = {p.untyped_storage().data_ptr() for p in a.parameters()}
-    sb = {p.untyped_storage().data_ptr() for p in b.parameters()}
+    sa = {p.untyped_storage().data_ptr() for p in a.parameters() if p.numel() > 0}     # empty tensors (a layer of size 0) have no storage to share
+    sb = {p.untyped_storage().data_ptr() for p in b.parameters() if p.numel() > 0}
     return not (sa & sb)
 
 
@@ -105,7 +105,7 @@ def check(c):
         require(str(state.device) == "cpu" and all(str(p_.device) == "cpu" for net in state.networks for p_ in getattr(state, net).parameters()),
                 "sizes:device", "without CUDA the state must live on the CPU whatever the gpu argument")
         labels.append("size_form=" + c.get("size_form", "int"))
-        enh, ena = (nh or n), ((na or n) if t == "density" else None)
+        enh, ena = (nh or n), ((n if na is None else na) if t == "density" else None)
         for net in state.networks:
             rbm = getattr(state, net)
             W = rbm.weights_W if t == "density" else rbm.weights
@@ -116,7 +116,7 @@ def check(c):
             require(bool((W != 0).any()), "sizes:weights", f"{net}: weights are all zero after construction")
             if t == "density":
                 require(tuple(rbm.weights_U.shape) == (ena, n) and tuple(rbm.aux_bias.shape) == (ena,) and rbm.num_aux == ena, "sizes:shapes", f"{net}: aux shapes wrong for na={na}")
-                require(bool((rbm.aux_bias == 0).all()) and bool((rbm.weights_U != 0).any()), "sizes:biases", f"{net}: aux bias not zero / weights_U all zero")
+                require(bool((rbm.aux_bias == 0).all()) and (ena == 0 or bool((rbm.weights_U != 0).any())), "sizes:biases", f"{net}: aux bias not zero / weights_U all zero")
         require((state.num_visible, state.num_hidden) == (n, enh), "sizes:attributes", "state.num_visible/num_hidden wrong")
         if has_ph:
             require(storage_disjoint(state.rbm_am, state.rbm_ph), "sizes:aliased-networks", "amplitude and phase networks share storage")
@@ -186,7 +186,7 @@ def check(c):
                     if "bias" in kk:
                         require(bool((v == 0).all()), "reinit:biases", f"{net}.{kk} is not zero after reinitialising")
                     else:
-                        require(not torch.equal(v, olds[net][kk]) and bool((v != 0).any()) and bool(torch.isfinite(v).all()), "reinit:weights-not-redrawn", f"{net}.{kk} was not redrawn (to finite random values) by reinitialize_parameters")
+                        require(v.numel() == 0 or (not torch.equal(v, olds[net][kk]) and bool((v != 0).any()) and bool(torch.isfinite(v).all())), "reinit:weights-not-redrawn", f"{net}.{kk} was not redrawn (to finite random values) by reinitialize_parameters")
             if has_ph:
                 require(storage_disjoint(state.rbm_am, state.rbm_ph), "reinit:aliased-networks", "networks share storage after reinitialising")
             if t == "density":
@@ -202,7 +202,7 @@ def check(c):
                     if "bias" in kk or k == "rbm_init_zero":
                         require(bool((v == 0).all()), "rbm-init:not-zero", f"{net}.{kk} is not zero after initialize_parameters({'zero_weights=True' if k == 'rbm_init_zero' else ''})")
                     else:
-                        require(not torch.equal(v, old_[kk]) and bool((v != 0).any()), "rbm-init:weights-not-redrawn", f"{net}.{kk} was not redrawn by initialize_parameters()")
+                        require(v.numel() == 0 or (not torch.equal(v, old_[kk]) and bool((v != 0).any())), "rbm-init:weights-not-redrawn", f"{net}.{kk} was not redrawn by initialize_parameters()")
             if has_ph:
                 require(storage_disjoint(state.rbm_am, state.rbm_ph), "rbm-init:aliased-networks", "networks share storage after initialize_parameters")
             if t == "density":
@@ -251,11 +251,11 @@ def check(c):
             v = torch.tensor([R.index_to_row(j % (2 ** n), n) for j in range(3)], dtype=torch.double)
             na_ = state.rbm_ph.num_aux
             g = state.rbm_ph.gamma_grad(v, v, eta=-1, expand=True)
-            require(bool((g[..., -na_:] == 0).all()), "grad-slices:gamma", "gamma_grad has a non-zero auxiliary-bias slice")
+            require(bool((g[..., g.shape[-1] - na_:] == 0).all()), "grad-slices:gamma", "gamma_grad has a non-zero auxiliary-bias slice")
             pg = state.pi_grad(v, v, phase=True, expand=True)
-            require(bool((pg[..., -na_:] == 0).all()), "grad-slices:pi", "pi_grad(phase=True) has a non-zero auxiliary-bias slice")
+            require(bool((pg[..., pg.shape[-1] - na_:] == 0).all()), "grad-slices:pi", "pi_grad(phase=True) has a non-zero auxiliary-bias slice")
             pg2 = state.pi_grad(v, v, phase=True, expand=False)
-            require(bool((pg2[..., -na_:] == 0).all()), "grad-slices:pi", "pi_grad(phase=True, expand=False) has a non-zero auxiliary-bias slice")
+            require(bool((pg2[..., pg2.shape[-1] - na_:] == 0).all()), "grad-slices:pi", "pi_grad(phase=True, expand=False) has a non-zero auxiliary-bias slice")
     return {"nontrivial": nt, "labels": sorted(set(labels))}
 
 
